@@ -46,6 +46,7 @@ type World struct {
 	Trace  []string          // transcript (only when Verbose)
 	Verbose bool
 	AutoViol []Violation // violations detected by the DSL itself (handler panics)
+	LastResp Resp        // the response of the last request
 	Hist     []string    // names of the operations of the history being executed (for shape signatures)
 	nreq   int
 }
@@ -61,7 +62,9 @@ var scratchRoot = func() string {
 func BaseConfig() config.Config {
 	return config.Config{
 		Storage: config.ConfigStorage{
-			GC: config.ConfigGC{Frequency: -1, GracePeriod: -1},
+			// the ticker is off; the grace period stays at one (virtual) hour because the directory
+			// store collects a repository whenever it leaves the repository cache, including at Close
+			GC: config.ConfigGC{Frequency: -1, GracePeriod: time.Hour},
 		},
 		API: config.ConfigAPI{
 			DeleteEnabled: bp(true),
@@ -269,6 +272,7 @@ func (w *World) DoNoQuiesce(r Req) (resp Resp) {
 		top := resp.PanicAt
 		w.AutoViol = append(w.AutoViol, V("no-panic", "panic:"+top, "handler panicked on %s %s?%s: %s", r.Method, r.Path, r.Query, resp.Panic))
 	}
+	w.LastResp = resp
 	if w.Verbose {
 		q := ""
 		if r.Query != "" {
